@@ -130,6 +130,29 @@ theorem poison_only_after_client_reset (cfg : Cfg) (c : Script)
 example : (front exCfg { exClient with evs := exClient.evs.take 1, finT := 50000, fin := .reset }).st.poisoned = true := by
   decide
 
+/-- The fuel the driver gives the detection loops (`Script.fuel`, one unit per segment and per byte)
+is enough: with that much fuel, adding more never changes the result, i.e. the out-of-fuel branches of
+`peekLoop` and `sniffLoop` are dead code and the model's answers are those of the unbounded loops. -/
+theorem detection_fuel_sufficient (s : Script) (fuel k : Nat) (h : s.fuel ≤ fuel + 1) :
+    (∀ dl need now buf, peekLoop dl need (fuel + k) s now buf = peekLoop dl need fuel s now buf) ∧
+    (∀ nm dl now buf, sniffLoop nm dl (fuel + k) s now buf = sniffLoop nm dl fuel s now buf) := by
+  induction k with
+  | zero => exact ⟨fun _ _ _ _ => rfl, fun _ _ _ _ => rfl⟩
+  | succ k ih =>
+    refine ⟨fun dl need now buf => ?_, fun nm dl now buf => ?_⟩
+    · rw [← Nat.add_assoc, peekLoop_fuel_stable dl need (fuel + k) s now buf (by omega)]; exact ih.1 _ _ _ _
+    · rw [← Nat.add_assoc, sniffLoop_fuel_stable nm dl (fuel + k) s now buf (by omega)]; exact ih.2 _ _ _ _
+
+example : exClient.fuel ≤ exClient.fuel + 1 ∧ exClient.fuel = 24 := by decide
+
+/-- …and the scripts the loops are re-entered with (after the first `Peek`, after the sniffer's first
+read) never need more fuel than the original script. -/
+theorem detection_fuel_monotone (s : Script) (dl : Option Nat) (need fuel now : Nat) (buf : Bytes) (n : Nat) :
+    (peekLoop dl need fuel s now buf).2.2.2.fuel ≤ s.fuel ∧ (s.readAt now dl n).rest.fuel ≤ s.fuel :=
+  ⟨peekLoop_fuel_le dl need fuel s now buf, s.readAt_fuel_le now dl n⟩
+
+example : (exClient.readAt 0 none 16).rest.fuel = 7 := by decide
+
 /-! ## 3. The whole connection: both byte streams, half-close, grace, never cut early -/
 
 /-- time at which the relay sees the end of the client's / the upstream's stream -/
